@@ -26,8 +26,8 @@ Verdict(v) ==
        ELSE LET wp == WantedProps(args) ws == Writes(v) IN
             IF wp = {} /\ Len(v.b0) # 0 THEN "a property write was sent although no property setting was given"
             ELSE IF wp # {} /\ Len(v.b0) # 1 THEN "property settings were not written exactly once"
-            ELSE IF wp # {} /\ {ws[k].id : k \in 1..Len(ws)} # {PropId(f) : f \in wp} \cup {PropBuzzer} THEN "property ids written differ from the settings given"
-            ELSE IF wp # {} /\ \E f \in wp : \E k \in 1..Len(ws) : ws[k].id = PropId(f) /\ ws[k].val # (IF f = "ieco" THEN <<0, 1, LastVal(args, f)>> \o Zeros(10) ELSE <<PropRaw(f, LastVal(args, f))>>)
+            ELSE IF wp # {} /\ {ws[k].id : k \in 1..Len(ws)} # {PropIdC(f, v.ctl) : f \in wp} \cup {PropBuzzer} THEN "property ids written differ from the settings given"
+            ELSE IF wp # {} /\ \E f \in wp : \E k \in 1..Len(ws) : ws[k].id = PropIdC(f, v.ctl) /\ ws[k].val # (IF f = "ieco" THEN <<0, 1, LastVal(args, f)>> \o Zeros(10) ELSE <<PropRawC(f, LastVal(args, f), v.ctl)>>)
                  THEN "property value written differs from the setting"
             ELSE "ok"
 Judge == LET r == Verdict(Vectors[i]) IN IF r = "ok" THEN TRUE ELSE PrintT(<<"REJECT", i, r>>)
